@@ -335,16 +335,21 @@ Proof. exact draw_to_term_spec_bottom_full. Qed.
 Print Assumptions C19_bottom_draw_exact_partial.
 
 (** (c) for MultiProgress: along EVERY history of the system model (any bars, members or not, any
-    calls - valid in the sense of MultiSpec.hist_ok or not -, any alignment and any alignment changes,
-    no I/O failures), after every call the last_line_count of the multi draw target is at most H:
-    the managed region never exceeds the terminal height (since fix 7d42cff also under Bottom
-    alignment: no padding ghost any more; before it the bound was false, see
-    C19_bottom_count_capped_after_7d42cff_witness) *)
-Theorem C19_multi_rows_bounded_partial : forall (W H : N) (s : sys) (ops : list (N * op)),
+    calls - valid in the sense of MultiSpec.hist_ok or not -, any alignment and any alignment changes)
+    and for EVERY fault oracle [fails] (any terminal call may fail: [fails k] = the k-th fallible call
+    returns an error), after every call the last_line_count of the multi draw target is at most H:
+    the managed region never exceeds the terminal height.  Since fix 7d42cff this holds under Bottom
+    alignment too (no padding ghost; before it the bound was false, see
+    C19_bottom_count_capped_after_7d42cff_witness), and a FAILED draw leaves the count capped as well
+    (the code caps `*bar_count` in place before its first fallible call; Sys.term_draw follows).
+    Inside one call LineAdjust::Clear may push the count past H for a moment: every such adjust is
+    followed, in the same call, by a draw that is never refused (it carries text lines) and ends
+    <= H whether it fails or not.  A COUNTER statement: no terminal semantics is involved. *)
+Theorem C19_multi_rows_bounded : forall (W H : N) (fails : N -> bool) (s : sys) (ops : list (N * op)),
   target_n (ms_target (s_mp s)) <= H ->
-  target_n (ms_target (s_mp (MultiSpec.run W H nofail s ops))) <= H.
-Proof. intros W H s ops. exact (multi_rows_le_H W H ops s). Qed.
-Print Assumptions C19_multi_rows_bounded_partial.
+  target_n (ms_target (s_mp (MultiSpec.run W H fails s ops))) <= H.
+Proof. intros W H fails s ops. exact (multi_rows_le_H W H fails ops s). Qed.
+Print Assumptions C19_multi_rows_bounded.
 
 (** (the older form of this bound with a padding ghost, `<= H + hist_shift`, said nothing beyond `<= H`
     and is no longer exported; the ghost machinery stays in proofs/TermBottomMulti.v, unused here) *)
@@ -459,13 +464,17 @@ Example C19_bottom_full_height_witness :
      = [TUp 2; TClear; TDown 1; TClear; TDown 1; TClear; TUp 2; TLine []; TLine []; TFlush].
 Proof. vm_compute. repeat split. Qed.
 
-(** C19_multi_rows_bounded_partial is not vacuous: the witness history (Bottom alignment, padding on the
-    screen) starts from last_line_count = 0 <= 10 and ends with a positive count *)
+(** C19_multi_rows_bounded is not vacuous: the witness history (Bottom alignment, padding on the
+    screen) starts from last_line_count = 0 <= 10 and ends with a positive count, with and without faults *)
 Example C19_multi_rows_bounded_nonvacuous :
   target_n (ms_target (s_mp (case_init bottom_println_case))) <= 10
   /\ target_n (ms_target (s_mp (MultiSpec.run 40 10 nofail (case_init bottom_println_case)
-                                  (c_ops bottom_println_case)))) = 2.
-Proof. split; [vm_compute; discriminate|vm_compute; reflexivity]. Qed.
+                                  (c_ops bottom_println_case)))) = 2
+  (* the same history on a terminal whose calls all fail from the 25th on: the count differs (failed draws
+     keep the old, capped count) and is still within the height *)
+  /\ target_n (ms_target (s_mp (MultiSpec.run 40 10 (fun k => 25 <=? k) (case_init bottom_println_case)
+                                  (c_ops bottom_println_case)))) = 3.
+Proof. split; [vm_compute; discriminate|split; vm_compute; reflexivity]. Qed.
 
 (** (d) at the level of the row COUNTERS, for MultiProgress WITHOUT the Fits proviso - partial (name):
     Top alignment, no dropped bars (no zombie rows), no I/O failures, every other call allowed
